@@ -71,6 +71,7 @@ fn c11_est<E: Est>(out: &mut Out, tier: &str, rng: &mut Rng) {
         let acc_a = acc_words(&a.accessors());
         // clone is part of the histories: a clone carries exactly the state of the original
         out.x(words(&a.clone()) == before, || format!("{}: clone() = {} differs from the original {}", E::NAME, words(&a.clone()), before));
+        { let mut t = states[(out.case as usize * 7) % states.len()].clone(); t.clone_from(a); out.x(words(&t) == before, || format!("{}: clone_from() gives {} for the original {}", E::NAME, words(&t), before)); }
         // a.merge(empty), the empty estimator constructed by new() and by Default
         let empty = E::new();
         let mut x = a.clone();
@@ -135,6 +136,7 @@ fn c11_pair<E: PairEst>(out: &mut Out, tier: &str, rng: &mut Rng) {
         let before = words(a);
         let acc_a = acc_words(&a.accessors());
         out.x(words(&a.clone()) == before, || format!("{}: clone() differs from the original", E::NAME));
+        { let mut t = states[(out.case as usize * 7) % states.len()].clone(); t.clone_from(a); out.x(words(&t) == before, || format!("{}: clone_from() gives {} for the original {}", E::NAME, words(&t), before)); }
         let empty = E::new();
         let mut x = a.clone(); x.merge(&empty);
         out.t(E::NAME, "merge", &before, &words(&empty), &words(&x));
@@ -158,9 +160,14 @@ fn c11_pair<E: PairEst>(out: &mut Out, tier: &str, rng: &mut Rng) {
 }
 
 fn c11_hist<H: Hst>(out: &mut Out, tier: &str, rng: &mut Rng) {
-    for _ in 0..(if tier == "thorough" { 40 } else { 10 }) {
+    for rep in 0..(if tier == "thorough" { 40 } else { 12 }) {
         if !out.next_case() { continue; }
-        let base = H::cw(-2.0, 2.0);
+        // equal-width bins, overflow bins (infinite outer edges), repeated edges
+        let base = match rep % 4 {
+            0 | 1 => H::cw(-2.0, 2.0),
+            2 => { let mut e: Vec<f64> = (0..=H::LEN).map(|i| -2.0 + 4.0 * i as f64 / H::LEN as f64).collect(); e[0] = f64::NEG_INFINITY; e[H::LEN] = f64::INFINITY; H::fr(e).unwrap() }
+            _ => { let mut e: Vec<f64> = (0..=H::LEN).map(|i| ((i / 2) as f64 - 1.0).min(2.0)).collect(); e.sort_by(|a, b| a.partial_cmp(b).unwrap()); if rep % 8 == 7 { e[H::LEN] = f64::INFINITY; } H::fr(e).unwrap() }
+        };
         let mut a = base.clone();
         let na = rng.below(40);
         for _ in 0..na { let _ = a.add_(rng.normal() * 2.0); }
@@ -169,6 +176,8 @@ fn c11_hist<H: Hst>(out: &mut Out, tier: &str, rng: &mut Rng) {
         for _ in 0..nb { let _ = b.add_(rng.normal() * 2.0); }
         let (pa, pb) = (words(&a), words(&b));
         out.x(words(&a.clone()) == pa, || format!("{}: clone() differs from the original", H::NAME));
+        // clone_from into a histogram over other edges and other counts
+        { let mut t = H::cw(0.0, 7.0); let _ = t.add_(1.0); t.clone_from(&a); out.x(words(&t) == pa, || format!("{}: clone_from() gives {} for the original {}", H::NAME, words(&t), pa)); }
         let mut x = a.clone(); x.merge_(&base);
         out.t(H::NAME, "merge", &pa, &words(&base), &words(&x));
         out.x(words(&x) == pa, || format!("{}: merging an empty histogram changed it", H::NAME));
@@ -182,9 +191,20 @@ fn c11_hist<H: Hst>(out: &mut Out, tier: &str, rng: &mut Rng) {
     }
 }
 
+fn c11_huge<E: Est>(out: &mut Out, _tier: &str, _rng: &mut Rng) {
+    if E::NAME == "Min" || E::NAME == "Max" { return; }
+    for (d, x) in HUGE_BASES { huge_counts::<E>(out, d, x); }
+}
+fn c11_phuge<E: PairEst>(out: &mut Out, _tier: &str, _rng: &mut Rng) {
+    for (d, x) in crate::props_pair::PHUGE_BASES { crate::props_pair::phuge_counts::<E>(out, d, x); }
+}
+
 pub fn c11(out: &mut Out, tier: &str, rng: &mut Rng) {
     for_all_est!(c11_est, out, tier, rng);
     for_all_pair!(c11_pair, out, tier, rng);
+    // the same claims at counts beyond 2^32 and 2^53 (lopsided operands: lengths add, the empty estimator is neutral)
+    for_all_est!(c11_huge, out, tier, rng);
+    for_all_pair!(c11_phuge, out, tier, rng);
     c11_hist::<H1>(out, tier, rng); c11_hist::<H4>(out, tier, rng); c11_hist::<H10>(out, tier, rng); c11_hist::<H100>(out, tier, rng);
 }
 
@@ -206,6 +226,29 @@ fn expect_f(out: &mut Out, ty: &str, accs: &[Acc], op: &str, want: &str, n: usiz
     }
 }
 
+/// the empty estimator, reached in different ways (all of them must behave as `new()` from then on)
+fn empty_variant<E: Est>(k: usize) -> E {
+    match k % 7 {
+        0 => E::new(),
+        1 => E::default(),
+        2 => { let mut a = E::new(); a.merge(&E::new()); a }
+        3 => { let mut a = E::default(); a.merge(&E::new()); a.merge(&E::default()); a }
+        4 => E::from_iter_val(&[]),
+        5 => { let mut a = E::new(); a.extend_ref(&[]); a.clone() }
+        _ => { let mut a = E::from_iter_lazy(&[]); a.clone_from(&E::new()); let b = a.clone(); a.merge(&b); a }
+    }
+}
+fn empty_pair_variant<E: PairEst>(k: usize) -> E {
+    match k % 6 {
+        0 => E::new(),
+        1 => E::default(),
+        2 => { let mut a = E::new(); a.merge(&E::new()); a }
+        3 => { let mut a = E::default(); a.merge(&E::new()); a.merge(&E::default()); a }
+        4 => E::from_iter_val(&[]),
+        _ => { let mut a = E::new(); a.extend_ref(&[]); let b = a.clone(); a.merge(&b); a }
+    }
+}
+
 fn c16_est<E: Est>(out: &mut Out, tier: &str, rng: &mut Rng) {
     let ty = E::NAME;
     if out.next_case() {
@@ -220,10 +263,12 @@ fn c16_est<E: Est>(out: &mut Out, tier: &str, rng: &mut Rng) {
             if !out.next_case() { continue; }
             let (d, _) = if E::ORDER >= 8 { dataset_in(rng, n.max(1), 1e9, -20.0, 20.0, FAMILIES) } else { dataset(rng, n.max(1), 1e9) };
             let d = &d[..n];
-            let mut e = E::new();
+            let variant = out.case as usize;
+            let mut e: E = empty_variant(variant);
+            out.x(acc_words(&e.accessors()) == acc_words(&E::new().accessors()), || format!("{}: the empty estimator built by route {} reports {:?}", ty, variant % 7, acc_words(&e.accessors())));
             feed(out, &mut e, d, Trace::All, rng);
             let accs = observe(out, &e);
-            let ctx = format!("{:?}", d);
+            let ctx = format!("{:?} (empty estimator built by route {})", d, variant % 7);
             // nothing may panic except standardized_moment(p>=3) with zero variance
             for a in &accs {
                 let allowed = a.op.starts_with("standardized_moment:") && !spread_nonzero(d) && a.op != "standardized_moment:0" && a.op != "standardized_moment:1" && a.op != "standardized_moment:2";
@@ -253,10 +298,11 @@ fn c16_est<E: Est>(out: &mut Out, tier: &str, rng: &mut Rng) {
             if !out.next_case() { continue; }
             let x = if E::ORDER >= 8 { clamp_domain(rng.normal() * 10f64.powi(rng.below(40) as i32 - 20)) } else { clamp_domain(rng.normal() * 10f64.powi(rng.below(56) as i32 - 28)) };
             let d = vec![x; k];
-            let mut e = E::new();
+            let variant = out.case as usize;
+            let mut e: E = empty_variant(variant);
             feed(out, &mut e, &d, if k <= 7 { Trace::All } else { Trace::Sparse }, rng);
             let accs = observe(out, &e);
-            let ctx = format!("constant stream of {} x {:?}", k, x);
+            let ctx = format!("constant stream of {} x {:?} (empty estimator built by route {})", k, x, variant % 7);
             if let Some(a) = accs.iter().find(|a| a.op == "mean") { out.x(a.val == Val::F(x) || (x == 0.0 && a.val.f() == 0.0), || format!("{}.mean of {} is {:?}", ty, ctx, a.val)); }
             for op in ["population_variance", "variance_of_mean", "error", "error_mean", "skewness", "kurtosis", "central_moment:1", "central_moment:2", "central_moment:3", "central_moment:4", "central_moment:5", "central_moment:8"] { expect_f(out, ty, &accs, op, "zero", k, &ctx); }
             if let Some(a) = accs.iter().find(|a| a.op == "min" || a.op == "max") { out.x(a.val.f() == x, || format!("{}.{} of {} is {:?}", ty, a.op, ctx, a.val)); }
@@ -282,20 +328,22 @@ fn c16_pairs(out: &mut Out, tier: &str, rng: &mut Rng) {
             let (xs, _) = dataset(rng, n.max(1), 1e6);
             let (ys, _) = dataset(rng, n.max(1), 1e6);
             let d: Vec<(f64, f64)> = xs.iter().cloned().zip(ys.iter().cloned()).take(n).collect();
-            let ctx = format!("{:?}", d);
-            let mut c = Covariance::new();
+            let variant = out.case as usize;
+            let ctx = format!("{:?} (empty estimator built by route {})", d, variant % 6);
+            let mut c: Covariance = empty_pair_variant(variant);
             pfeed(out, &mut c, &d, Trace::All, rng);
+            if n == 1 { out.x(c.mean_x() == d[0].0 && c.mean_y() == d[0].1, || format!("Covariance means of one observation {:?} are ({:?},{:?}) ({})", d[0], c.mean_x(), c.mean_y(), ctx)); }
             let accs = pobserve(out, &c);
             if n == 0 { for op in ["mean_x", "mean_y", "population_variance_x", "population_variance_y", "population_covariance"] { expect_f(out, "Covariance", &accs, op, "nan", n, &ctx); } }
             if n < 2 { for op in ["sample_variance_x", "sample_variance_y", "sample_covariance", "pearson"] { expect_f(out, "Covariance", &accs, op, "nan", n, &ctx); } }
             if n == 1 { for op in ["population_variance_x", "population_variance_y", "population_covariance"] { expect_f(out, "Covariance", &accs, op, "zero", n, &ctx); } }
             // weighted: all weights zero -> total weight zero
             let dz: Vec<(f64, f64)> = xs.iter().take(n).map(|x| (*x, 0.0)).collect();
-            let mut w = WeightedMean::new(); pfeed(out, &mut w, &dz, Trace::All, rng);
+            let mut w: WeightedMean = empty_pair_variant(variant + 1); pfeed(out, &mut w, &dz, Trace::All, rng);
             let aw = pobserve(out, &w);
             expect_f(out, "WeightedMean", &aw, "mean", "nan", n, "total weight zero");
             expect_f(out, "WeightedMean", &aw, "sum_weights", "zero", n, "total weight zero");
-            let mut we = WeightedMeanWithError::new(); pfeed(out, &mut we, &dz, Trace::All, rng);
+            let mut we: WeightedMeanWithError = empty_pair_variant(variant + 2); pfeed(out, &mut we, &dz, Trace::All, rng);
             let awe = pobserve(out, &we);
             expect_f(out, "WMWE", &awe, "weighted_mean", "nan", n, "total weight zero");
             expect_f(out, "WMWE", &awe, "variance_of_weighted_mean", "nan", n, "total weight zero");
@@ -305,7 +353,7 @@ fn c16_pairs(out: &mut Out, tier: &str, rng: &mut Rng) {
             if n < 2 { expect_f(out, "WMWE", &awe, "sample_variance", "nan", n, "n<2"); }
             // positive weights, one observation
             if n == 1 {
-                let mut w1 = WeightedMeanWithError::new(); pfeed(out, &mut w1, &[(d[0].0, 2.5)], Trace::All, rng);
+                let mut w1: WeightedMeanWithError = empty_pair_variant(variant + 3); pfeed(out, &mut w1, &[(d[0].0, 2.5)], Trace::All, rng);
                 let a1 = pobserve(out, &w1);
                 out.x(a1.iter().find(|a| a.op == "weighted_mean").unwrap().val == Val::F(d[0].0), || format!("weighted mean of one observation {:?}", d[0].0));
                 expect_f(out, "WMWE", &a1, "population_variance", "zero", 1, "one observation");
@@ -320,14 +368,15 @@ fn c16_pairs(out: &mut Out, tier: &str, rng: &mut Rng) {
             let x = clamp_domain(rng.normal() * 10f64.powi(rng.below(40) as i32 - 20));
             let y = clamp_domain(rng.normal() * 10f64.powi(rng.below(40) as i32 - 20));
             let d = vec![(x, y); k];
-            let ctx = format!("constant stream of {} x ({:?},{:?})", k, x, y);
-            let mut c = Covariance::new();
+            let variant = out.case as usize;
+            let ctx = format!("constant stream of {} x ({:?},{:?}) (empty estimator built by route {})", k, x, y, variant % 6);
+            let mut c: Covariance = empty_pair_variant(variant);
             pfeed(out, &mut c, &d, if k <= 7 { Trace::All } else { Trace::Sparse }, rng);
             let accs = pobserve(out, &c);
             out.x(c.mean_x() == x && c.mean_y() == y, || format!("Covariance means of {} are ({:?},{:?})", ctx, c.mean_x(), c.mean_y()));
             for op in ["population_variance_x", "population_variance_y", "population_covariance"] { expect_f(out, "Covariance", &accs, op, "zero", k, &ctx); }
             let dw: Vec<(f64, f64)> = (0..k).map(|i| (x, [1.0, 0.5, 3.0][i % 3])).collect();
-            let mut w = WeightedMeanWithError::new();
+            let mut w: WeightedMeanWithError = empty_pair_variant(variant + 1);
             pfeed(out, &mut w, &dw, if k <= 7 { Trace::All } else { Trace::Sparse }, rng);
             let aw = pobserve(out, &w);
             out.x(w.unweighted_mean() == x, || format!("unweighted mean of {} is {:?}", ctx, w.unweighted_mean()));
@@ -335,13 +384,20 @@ fn c16_pairs(out: &mut Out, tier: &str, rng: &mut Rng) {
             if k >= 2 { expect_f(out, "WMWE", &aw, "variance_of_weighted_mean", "zero", k, &ctx); expect_f(out, "WMWE", &aw, "error", "zero", k, &ctx); }
         }
     }
-    // Quantile
-    for n in 0..=4usize {
-        if !out.next_case() { continue; }
-        let mut q = average::Quantile::new(0.3);
-        for i in 0..n { average::Estimate::add(&mut q, i as f64 * 1.5 - 2.0); }
-        out.t("Quantile", "quantile", &words(&q), "", &fw(q.quantile()));
-        out.x(q.quantile().is_nan() == (n == 0), || format!("Quantile.quantile with n={} is {:?}", n, q.quantile()));
+    // Quantile: every p, the ends of [0,1] included
+    for &p in &[0.3, 0.0, 1.0, -0.0, 0.5, 5e-324, f64::MIN_POSITIVE, 0.25, 0.75, 1.0 - f64::EPSILON / 2.0] {
+        for n in 0..=6usize {
+            if !out.next_case() { continue; }
+            let mut q = if p == 0.5 && n % 2 == 0 { average::Quantile::default() } else { average::Quantile::new(p) };
+            if n == 6 { q = q.clone(); }
+            for i in 0..n.min(5) { average::Estimate::add(&mut q, i as f64 * 1.5 - 2.0); }
+            out.t("Quantile", "quantile", &words(&q), "", &fw(q.quantile()));
+            out.t("Quantile", "estimate", &words(&q), "", &fw(average::Estimate::estimate(&q)));
+            let n = n.min(5);
+            out.x(q.quantile().is_nan() == (n == 0) && average::Estimate::estimate(&q).is_nan() == (n == 0), || format!("Quantile(p = {:?}).quantile() with n={} is {:?}", p, n, q.quantile()));
+            out.x(q.len() == n as u64 && q.is_empty() == (n == 0), || format!("Quantile(p = {:?}): len {} is_empty {} with n={}", p, q.len(), q.is_empty(), n));
+            if n == 1 { out.x(q.quantile() == -2.0, || format!("Quantile(p = {:?}) of the single observation -2 is {:?}", p, q.quantile())); }
+        }
     }
 }
 
@@ -570,6 +626,21 @@ fn c20_est<E: Est>(out: &mut Out, tier: &str, rng: &mut Rng) {
             e.extend_lazy(&d[..i], kind); e.extend_val(&d[i..j]); e.extend_lazy(&d[j..], kind + 1);
             out.x(words(&e) == want, || format!("{}: default() then extend from lazily sized iterators (kind {}) split {}|{}|{} differs from add loop: {} vs {}", E::NAME, kind, i, j - i, n - j, words(&e), want));
         }
+        // the same on top of a count that no loop reaches (2^31..2^56, by self-merge doubling)
+        if n >= 1 && n <= 30 && E::NAME != "Min" && E::NAME != "Max" {
+            let mut big = by_add.clone();
+            for _ in 0..(31 + rng.below(25)) { let c = big.clone(); big.merge(&c); }
+            let mut want = big.clone(); for x in &d[..n.min(5)] { want.add(*x); }
+            let want = words(&want);
+            let t = &d[..n.min(5)];
+            let mut e1 = big.clone(); e1.extend_val(t);
+            let mut e2 = big.clone(); e2.extend_ref(t);
+            let mut e3 = big.clone(); e3.extend_lazy(t, 0);
+            let mut e4 = big.clone(); e4.extend_lazy(t, 1);
+            for (nm, e) in [("extend by value", &e1), ("extend by reference", &e2), ("extend from a filtered iterator", &e3), ("extend from take_while", &e4)] {
+                out.x(words(e) == want, || format!("{}: {} onto {} observations differs from the add loop: {} vs {}", E::NAME, nm, big.len().unwrap_or(0), words(e), want));
+            }
+        }
         // estimate() = headline statistic
         if let (Some((name, h)), Some(est)) = (by_add.headline(), by_add.estimate()) {
             out.x(h.to_bits() == est.to_bits() || (h.is_nan() && est.is_nan()), || format!("{}: estimate() = {:?} but {}() = {:?}", E::NAME, est, name, h));
@@ -599,6 +670,19 @@ fn c20_pair<E: PairEst>(out: &mut Out, tier: &str, rng: &mut Rng) {
         }
         out.x(words(&E::from_iter_lazy(&d)) == want, || format!("{}: collect from a filtered iterator differs from add loop", E::NAME));
         { let mut e = E::default(); e.extend_lazy(&d[..i]); e.extend_ref(&d[i..]); out.x(words(&e) == want, || format!("{}: default() + lazy extend differs from add loop", E::NAME)); }
+        if n >= 1 && n <= 30 {
+            let mut big = by_add.clone();
+            for _ in 0..(31 + rng.below(25)) { let c = big.clone(); big.merge(&c); }
+            let t = &d[..n.min(5)];
+            let mut w = big.clone(); for (a, b) in t { w.add(*a, *b); }
+            let w = words(&w);
+            let mut e1 = big.clone(); e1.extend_val(t);
+            let mut e2 = big.clone(); e2.extend_ref(t);
+            let mut e3 = big.clone(); e3.extend_lazy(t);
+            for (nm, e) in [("extend by value", &e1), ("extend by reference", &e2), ("extend from a filtered iterator", &e3)] {
+                out.x(words(e) == w, || format!("{}: {} onto an estimator holding more than 2^31 observations differs from the add loop: {} vs {}", E::NAME, nm, words(e), w));
+            }
+        }
         out.note(E::NAME);
     }
 }
@@ -608,7 +692,7 @@ fn same(a: f64, b: f64) -> bool { a.to_bits() == b.to_bits() || (a.is_nan() && b
 fn c20_concat(out: &mut Out, tier: &str, rng: &mut Rng) {
     for rep in 0..(if tier == "thorough" { 200 } else { 50 }) {
         if !out.next_case() { continue; }
-        let n = if rep < 3 { 0 } else { rng.below(40) };
+        let n = if rep < 3 { 0 } else if rep % 5 == 4 { *rng.pick(&BLOCK_LENS[..27]) + rng.below(3) } else { rng.below(40) };
         let (d, _) = dataset(rng, n.max(1), 1e9);
         let d = &d[..n];
         let mean: Mean = d.iter().collect(); let max: Max = d.iter().collect(); let min: Min = d.iter().collect();
@@ -663,6 +747,29 @@ fn replay_pair<E: PairEst>(out: &mut Out, rng: &mut Rng, data: &[f64], kind: &st
     if kind != "wt" || pairs.iter().map(|p| p.1).sum::<f64>() > 0.0 { crate::props_pair::oracle_pairs_pub(out, kind, &pairs, &accs); }
 }
 
+/// evaluate an explicit merge tree (`avgh tree <Type> <tokens>`) with the named estimator and emit its protocol lines
+pub fn replay_tree(out: &mut Out, rng: &mut Rng, ty: &str, tokens: &[String]) -> bool {
+    let mut pos = 0;
+    let t = match Tree::decode(tokens, &mut pos) { Some(t) if pos == tokens.len() => t, _ => return false };
+    let all = |_: &str| true;
+    match ty {
+        "Mean" => crate::props_mom::merged::<average::Mean>(out, &t, Trace::All, rng, &all),
+        "Variance" => crate::props_mom::merged::<average::Variance>(out, &t, Trace::All, rng, &all),
+        "Skewness" => crate::props_mom::merged::<average::Skewness>(out, &t, Trace::All, rng, &all),
+        "Kurtosis" => crate::props_mom::merged::<average::Kurtosis>(out, &t, Trace::All, rng, &all),
+        "M4" => crate::props_mom::merged::<average::Moments4>(out, &t, Trace::All, rng, &all),
+        "M5" => crate::props_mom::merged::<M5>(out, &t, Trace::All, rng, &all),
+        "M6" => crate::props_mom::merged::<M6>(out, &t, Trace::All, rng, &all),
+        "M8" => crate::props_mom::merged::<M8>(out, &t, Trace::All, rng, &all),
+        "M10" => crate::props_mom::merged::<M10>(out, &t, Trace::All, rng, &all),
+        "WeightedMean" => crate::props_pair::weighted_case::<WeightedMean>(out, &crate::props_pair::PTree::from_interleaved(&t), Trace::All, rng),
+        "WMWE" => crate::props_pair::weighted_case::<WeightedMeanWithError>(out, &crate::props_pair::PTree::from_interleaved(&t), Trace::All, rng),
+        "Covariance" => crate::props_pair::cov_case(out, &crate::props_pair::PTree::from_interleaved(&t), Trace::All, rng),
+        _ => return false,
+    }
+    true
+}
+
 /// feed `data` one observation at a time to the named estimator and emit its protocol lines
 pub fn replay_data(out: &mut Out, rng: &mut Rng, ty: &str, data: &[f64]) -> bool {
     match ty {
@@ -678,6 +785,13 @@ pub fn replay_data(out: &mut Out, rng: &mut Rng, ty: &str, data: &[f64]) -> bool
         "WeightedMean" => replay_pair::<WeightedMean>(out, rng, data, "wt"),
         "WMWE" => replay_pair::<WeightedMeanWithError>(out, rng, data, "wt"),
         "Covariance" => replay_pair::<Covariance>(out, rng, data, "pair"),
+        "Min" | "Max" => {
+            if !out.next_case() { return true; }
+            if ty == "Min" { let mut e = average::Min::new(); feed(out, &mut e, data, Trace::All, rng); out.o("min", &[&fws(data), &fw(e.min())]); }
+            else { let mut e = average::Max::new(); feed(out, &mut e, data, Trace::All, rng); out.o("max", &[&fws(data), &fw(e.max())]); }
+        }
+        // Quantile: the first word is p
+        "Quantile" => { if data.is_empty() { return false; } crate::props_quant::replay_stream(out, data[0], &data[1..]); }
         _ => return false,
     }
     true
